@@ -160,6 +160,7 @@ type world struct {
 	logs     *observer.ObservedLogs // warnings of the shard (known finding C38-F3 is identified by one of them)
 	reopenMu sync.Mutex
 	reopens [][2]uint64 // intervals of concurrent shard close+reopen operations (Ret = Inf while in flight)
+	cutBoost int
 	arrived map[int]int // rendezvous id -> clients that reached it
 	rcond   *sync.Cond
 	exited  int // clients that finished their program
@@ -294,6 +295,10 @@ func gen(r *hx.Run) []json.RawMessage {
 	wBackup := r.CfgInt("wbackup", 0)
 	wCReopen := r.CfgInt("wcreopen", 0)
 	wCompEn := r.CfgInt("wcompen", 0)
+	wSnapRace := r.CfgInt("wsnaprace", 0)
+	if clients < 2 {
+		wSnapRace = 0
+	}
 	wRace := r.CfgInt("wrace", 1)
 	if clients < 2 {
 		wRace = 0
@@ -304,7 +309,22 @@ func gen(r *hx.Run) []json.RawMessage {
 	for i := 0; i < nops; i++ {
 		var p op
 		p.C = o.Choose(clients, "client")
-		switch o.Pick("op", 10, wRead, wDel, wDM, wSnap, wFull, 4, wBulk, wReopen, wTyped, wBackup, wRace, wCReopen, wCompEn) {
+		switch o.Pick("op", 10, wRead, wDel, wDM, wSnap, wFull, 4, wBulk, wReopen, wTyped, wBackup, wRace, wCReopen, wCompEn, wSnapRace) {
+		case 14:
+			// a write and an explicit cache snapshot start at the same instant; the writer then deletes the cell it
+			// has just written (the snapshot may have taken the value between the write's cache and WAL steps)
+			s0, f0, t0 := o.Choose(useSeries, "s"), o.Choose(useFields, "f"), o.Choose(nSlots, "t")
+			usedMF[[2]int{s0 / nTagSets, f0}] = true
+			other := (p.C + 1 + o.Choose(clients-1, "snapper")) % clients
+			for _, q := range []op{
+				{C: p.C, K: "w", S: []int{s0}, F: []int{f0}, T: []int{t0}, R: i + 1, Q: 2},
+				{C: other, K: "snap", R: i + 1, Q: 2},
+				{C: p.C, K: "d", S: []int{s0}, Min: t0, Max: t0},
+			} {
+				b, _ := json.Marshal(q)
+				prog = append(prog, b)
+			}
+			continue
 		case 12:
 			p.K = "creopen"
 		case 13:
@@ -526,11 +546,11 @@ func (w *world) clientDone() {
 func (w *world) doOp(p op) {
 	r := w.r
 	ctx := context.Background()
+	if p.R > 0 {
+		w.rendezvous(p.R, p.Q)
+	}
 	switch p.K {
 	case "w", "bulk":
-		if p.R > 0 {
-			w.rendezvous(p.R, p.Q)
-		}
 		var pts []models.Point
 		type rec struct {
 			ev *model.WEv
@@ -651,6 +671,7 @@ func (w *world) doOp(p op) {
 			r.Violate("C03:delete-error", "delete", "DeleteSeriesRange failed with no fault injected: %v", err)
 		}
 		r.Probe("deletes")
+		w.cutBoost = 4 // crash configurations: the disk events right after an acknowledged delete are cut far more often
 		r.Logf("c%d delete series %v [%d..%d] [%d,%d] err=%v", p.C, p.S, min, max, inv, ret, err)
 	case "dm":
 		m := p.N
@@ -1498,7 +1519,12 @@ func (w *world) hook(f *simfs.FS, ev *simfs.Event) error {
 		return nil
 	}
 	den := w.cutDen
-	if den > 4 && fileKind(ev.Path) == "fields" {
+	if w.cutBoost > 0 {
+		w.cutBoost--
+		if den > 2 {
+			den = 2
+		}
+	} else if den > 4 && fileKind(ev.Path) == "fields" {
 		// the field index change log is touched rarely and every event on it is a commit step of a
 		// schema change: cut there far more often than elsewhere
 		den = 4
